@@ -15,7 +15,22 @@ REPO_SRC = ["rkcommon/utility/demangle.cpp"]
 NS = 4
 # family, driver output form, payload flavour (does a move leave code 0 behind)
 FAMS = [("trk", "full", "mvz1"), ("str", "plain", "mvz1"), ("vec", "plain", "mvz1"),
-        ("over", "plain", "mvz0"), ("int", "plain", "mvz0")]
+        ("over", "plain", "mvz0"), ("int", "plain", "mvz0"), ("ks", "plain", "mvz0"), ("dbl", "plain", "mvz0")]
+# a payload code is 4 * key + shadow: the payload's comparison operators see the key only.  The classic families are fed
+# shadow-free codes (4 * v); ks ({key, shadow} compared on key) and dbl (+0.0 / -0.0) also get codes with shadows.
+VALUE_FIELD = {"cv": 3, "mk": 3, "av": 2, "em": 2, "vo": 2}
+
+
+def recode(case, f):
+    """apply f to every payload value of an Optional history"""
+    out = []
+    for tok in case.split():
+        p = tok.split(":")
+        k = VALUE_FIELD.get(p[0])
+        if k is not None and len(p) > k:
+            p[k] = str(f(int(p[k])))
+        out.append(":".join(p))
+    return " ".join(out)
 TRANSFER = ("cc", "cm", "xc", "xm", "ac", "am", "xac", "xam")
 CMPS = ("eq", "ne", "lt", "le", "gt", "ge")
 
@@ -79,6 +94,8 @@ def oracle_O(ops, mvz, stats=None):
             else:
                 x, y = wi[1], wj[1]
                 both = x is not None and y is not None
+                if both:
+                    x, y = x // 4, y // 4               # the payload's operators compare keys
                 r = {"eq": both and x == y, "ne": not (both and x == y), "lt": both and x < y, "le": both and x <= y,
                      "gt": both and x > y, "ge": both and x >= y}[c]
                 out = "true" if r else "false"
@@ -138,6 +155,16 @@ def check_O(ops, line, full, mvz):
 
 
 # ------------------------------------------------- independent property oracle: Any (python)
+def peqv(t, x, y):
+    """the payload's own operator== (independent restatement): tag 6 = double with +0.0 (0), -0.0 (1), NaN (2);
+    tag 7 = {key, shadow} compared on key (code = 16*key + shadow)"""
+    if t == 6:
+        return x != 2 and y != 2 and (x == y or (x <= 1 and y <= 1))
+    if t == 7:
+        return x // 16 == y // 16
+    return x == y
+
+
 def oracle_A(ops):
     st = [None] * NS                # None = dead, "e" = empty, (t, v)
     def dump():
@@ -162,7 +189,7 @@ def oracle_A(ops):
             elif c == "ac": st[i] = wj
             else:
                 if wi == "e" or wj == "e": r = (wi == "e" and wj == "e")
-                else: r = wi[0] == wj[0] and wi[0] != 4 and wi[1] == wj[1]
+                else: r = wi[0] == wj[0] and wi[0] != 4 and peqv(wi[0], wi[1], wj[1])
                 out = "true" if (r if c == "eq" else not r) else "false"
         elif c == "get": out = "val=%d" % wi[1] if wi != "e" and wi[0] == int(f[2]) else "throw"
         elif c == "set":
@@ -248,6 +275,11 @@ ALPHA_O2 = ["cc:3:0", "cm:3:1", "cm:3:0", "xc:3:2", "xm:3:2", "ac:0:1", "am:0:1"
             "eq:0:1", "ge:1:2", "ne:1:0", "le:2:2", "am:3:0", "ac:3:1", "val:3", "hv:0", "str:1"]
 
 
+ALPHA_KS = ["cv:0:0:4", "cv:1:0:6", "cd:1:0", "cv:2:1:5", "ac:0:1", "am:0:1", "ac:1:0", "xac:0:2", "xam:0:2", "cc:3:0", "cm:3:1",
+            "xc:3:2", "em:0:7", "av:0:5:0", "av:0:6:1", "rs:1", "val:0", "val:1", "eq:0:1", "le:0:2", "ne:1:2", "vo:1:7",
+            "mk:3:0:4", "d:0"]
+
+
 def exhaustive_O(n1, n2):
     for n in range(1, n1 + 1):
         for t in itertools.product(ALPHA_O, repeat=n):
@@ -263,7 +295,9 @@ def gen_A(r, maxlen):
     ops = []
     n = r.randint(2, maxlen)
     while len(ops) < n:
-        i = r.randrange(NS); t = r.randrange(6); v = r.randint(1, 60)
+        i = r.randrange(NS); t = r.choice([0, 1, 2, 3, 4, 5, 6, 6, 6, 7, 7]); v = r.randint(1, 60)
+        if t == 6: v = r.choice([0, 1, 2, 0, 1, 2, 3, 5])                 # +0.0, -0.0, NaN, ordinary
+        if t == 7: v = 16 * r.randint(1, 2) + r.randint(0, 3)             # few keys, several shadows
         others = [j for j in range(NS) if alive[j]]
         if not alive[i]:
             c = r.random()
@@ -289,7 +323,8 @@ def gen_A(r, maxlen):
 
 ALPHA_A = ["cd:0", "cv:0:0:5", "cv:1:0:5", "cv:1:2:5", "cv:2:4:5", "cc:1:0", "cc:2:0", "ac:0:1", "ac:1:0", "ac:0:0", "av:0:2:7",
            "get:0:0", "get:0:2", "get:1:0", "set:1:0:9", "set:0:0:9", "eq:0:1", "eq:1:0", "ne:0:1", "eq:0:0", "eq:2:2", "str:0",
-           "str:1", "d:0", "valid:0", "is:0:0"]
+           "str:1", "d:0", "valid:0", "is:0:0",
+           "cv:0:6:0", "cv:1:6:1", "cv:0:6:2", "cv:1:6:2", "get:0:6", "cv:0:7:17", "cv:1:7:18", "get:0:7", "ac:1:1", "ne:1:1"]
 
 
 def exhaustive_A(n):
@@ -487,7 +522,15 @@ def run(ctx):
     o_exh = list(exhaustive_O(3, ctx.pick(2, 3)))
     a_rand = [gen_A(r, 30) for _ in range(ctx.pick(2500, 25000))]
     a_exh = list(exhaustive_A(ctx.pick(3, 4)))
-    o_cases = [c for c in corpus if c[0] == "O"] + o_rand + o_exh
+    o_rand_raw = o_rand
+    o_cases = [recode(c, lambda v: 4 * v) for c in [c for c in corpus if c[0] == "O"] + o_rand + o_exh]
+    o_rand = o_cases[len([c for c in corpus if c[0] == "O"]):][:len(o_rand_raw)]
+    rs = ctx.rng("shadows")
+    ks_extra = [recode(c, lambda v: 4 * (v % 3 + 1) + rs.randrange(4)) for c in o_rand_raw] + \
+        ["O " + " ".join(t) for n in range(1, 4) for t in itertools.product(ALPHA_KS, repeat=n)]
+    dbl_map = {4: 0, 6: 1, 5: 1, 7: 4}
+    dbl_extra = [recode(c, lambda v: rs.choice([0, 1, 0, 1, 4 * v])) for c in o_rand_raw] + \
+        [recode("O " + " ".join(t), lambda v: dbl_map[v]) for n in range(1, 4) for t in itertools.product(ALPHA_KS, repeat=n)]
     a_cases = [c for c in corpus if c[0] == "A"] + a_rand + a_exh
     ctx.log("cases: Optional %d (random %d, exhaustive %d), Any %d (random %d, exhaustive %d)"
             % (len(o_cases), len(o_rand), len(o_exh), len(a_cases), len(a_rand), len(a_exh)))
@@ -574,17 +617,35 @@ def run(ctx):
     mism, crashes, mlines = vlib.differential(ctx, a_cases, model, impls, model_args=["fixed"])
     ctx.count(len(a_cases))
     ctx.cov["mismatches_any"] = len(mism)
+
     judge(ctx, "Any history", a_cases, exe, ["trk"], False, True, mism, crashes, "Any")
     for c in a_rand[:1]:
         ctx.sample({"case": c, "model_and_impl": mlines[a_cases.index(c)][:400] if mlines else None})
 
+    # ---- Optional histories whose values are distinguishable but compare equal (shadows / signed zeros)
+    for fam, extra in (("ks", ks_extra), ("dbl", dbl_extra)):
+        impls = [("Optional<%s>+shadow" % fam, exe, [fam]), ("Optional<%s>+shadow@odd-offset" % fam, exe_odd, [fam])]
+        mism, crashes, mlines = vlib.differential(ctx, extra, model, impls, model_args=["plain", "mvz0", "fixed"])
+        ctx.count(len(extra) * len(impls))
+        ctx.cov["mismatches_%s_shadow" % fam] = len(mism)
+        for c in extra[:len(o_rand_raw)]:
+            st = {}
+            oracle_O(c.split()[1:], False, st)
+            if st and any(t.split(":")[0] in CMPS for t in c.split()[1:]):
+                ctx.nontriv(c)
+        for label, ex, args in impls:
+            judge(ctx, "Optional history", extra, ex, args, False, False, mism, crashes, label)
+    ctx.sample({"case": ks_extra[0], "note": "payload codes are 4*key+shadow; ks compares keys only"})
+
     ctx.cov["case_mix"] = {"corpus": len(corpus), "optional_random": len(o_rand), "optional_exhaustive": len(o_exh),
+                           "optional_shadowed_ks": len(ks_extra), "optional_signed_zero_dbl": len(dbl_extra),
                            "any_random": len(a_rand), "any_exhaustive": len(a_exh), "payload_families": [f[0] for f in FAMS],
                            "placements": ["64-byte aligned slot", "struct{char; Optional<T>} (odd offset when alignment is 1)"]}
     ctx.rule = ("Optional: random histories (length<=30, 4 wrapper slots, both payload types T and convertible U, sources biased to be empty "
                 "half of the time) + all histories of length<=%d over a %d-op alphabet + all continuations of length<=%d (%d-op alphabet) of "
-                "a 3-wrapper preamble; each on 5 payload families x 2 placements under ASan+UBSan. Any: random histories (length<=30, 6 "
-                "payload types incl. one without operator== and an instrumented one) + all histories of length<=%d over %d ops. "
+                "a 3-wrapper preamble; each on 7 payload families x 2 placements under ASan+UBSan (payload codes are 4*key+shadow; the {key,shadow} struct compared on key and double/float with +0.0/-0.0 additionally get histories with shadowed codes, full stored state printed after every step). Any: random histories (length<=30, 8 "
+                "payload types incl. one without operator==, an instrumented one, double with +0.0/-0.0/NaN and a {key,shadow} struct "
+                "compared on key only; the full stored state is printed bit-exactly after every step) + all histories of length<=%d over %d ops. "
                 "non-trivial = the history contains a well-formed wrapper-to-wrapper copy/move/assign and a later observation"
                 % (3, len(ALPHA_O), ctx.pick(2, 3), len(ALPHA_O2), ctx.pick(3, 4), len(ALPHA_A)))
     ctx.trusted += ["correspondence harness harness/C09/harness.cpp (instrumented payload Trk with a live-address registry; g++ -std=c++11 -O1, "
